@@ -21,12 +21,15 @@ GU_PRIMS = {
     "Interferometer": (None, ["U"]), "GaussianTransform": (None, ["S"]),
 }
 GU_DECOMP = {"Xgate": (1, ["r"]), "Zgate": (1, ["r"]), "Pgate": (1, ["r"]), "Fouriergate": (1, []),
-             "CXgate": (2, ["r"]), "CZgate": (2, ["r"])}
+             "CXgate": (2, ["r"]), "CZgate": (2, ["r"]), "GraphEmbed": (None, ["A"])}
 PASSIVE_PRIMS = {
     "Rgate": (1, ["a"]), "LossChannel": (1, ["t"]), "BSgate": (2, ["a", "a"]), "MZgate": (2, ["a", "a"]),
     "sMZgate": (2, ["a", "a"]), "Interferometer": (None, ["U"]), "PassiveChannel": (None, ["T"]),
 }
 NONGAUSS = {"Kgate": (1, ["r"]), "Vgate": (1, ["r"]), "CKgate": (2, ["r"])}
+# the other operations gaussian_merge accepts and must leave in place: measurements and the Ket preparation
+OPAQUE = {"MeasureFock": (None, []), "MeasureHomodyne": (1, ["a"]), "Ket": (1, ["K"])}
+NONGAUSS_ALL = {**NONGAUSS, **OPAQUE}
 GATES_WITH_DAGGER = {"Dgate", "Sgate", "Rgate", "BSgate", "MZgate", "sMZgate", "S2gate", "Xgate", "Zgate", "Pgate",
                      "Fouriergate", "CXgate", "CZgate", "Kgate", "Vgate", "CKgate"}
 
@@ -102,14 +105,16 @@ def rand_index_set(rng, max_used=4):
     if style == "dense0":
         used = list(range(k))
     elif style == "gapped":
-        used = rng.sample(range(0, 8), k)
+        used = rng.sample(range(0, max(8, k + 3)), k)
     elif style == "high":
-        used = rng.sample(range(0, 20), k)
+        used = rng.sample(range(0, max(20, 2 * k)), k)
     else:
         # sets whose hash (= value mod table size) order differs from numeric order
         big = rng.choice([8, 9, 16, 17, 10, 24])
         pool = [m for m in range(0, 8) if m % 8 > big % 8] or [7]
         used = [big] + rng.sample(pool, min(k - 1, len(pool)))
+        if len(used) < k:
+            used += rng.sample([m for m in range(25, 25 + 2 * k)], k - len(used))
         if len(used) < 2:
             used.append((big % 8) + 1)
     used = list(dict.fromkeys(used))
@@ -117,7 +122,14 @@ def rand_index_set(rng, max_used=4):
     return N, used
 
 
+TINY = [1e-3, -2e-3, 4e-4, 1e-4, -1e-5]
+
+
 def draw_param(rng, kind):
+    if kind in ("a", "r", "d") and rng.random() < 0.07:
+        # near-identity gates: must not be swallowed by a too generous "is it the identity" test
+        v = rng.choice(TINY)
+        return abs(v) if kind == "d" else v
     if kind == "a":
         return rng.choice(ANGLES) if rng.random() < 0.35 else round(rng.uniform(-math.pi, math.pi), 3)
     if kind == "d":
@@ -142,6 +154,15 @@ def rand_cmd(rng, used, table, dagger_prob=0.25, max_mat=3, small=False):
             params.append(mat_to_json(rand_symplectic(rng, nm, passive=rng.random() < 0.25)))
         elif k == "T":
             params.append(mat_to_json(rand_contraction(rng, nm)))
+        elif k == "A":
+            g_ = _nprng(rng)
+            A_ = g_.uniform(-0.5, 0.5, size=(nm, nm))
+            params.append(mat_to_json(np.round((A_ + A_.T) / 2, 3)))
+        elif k == "K":
+            g_ = _nprng(rng)
+            v_ = g_.normal(size=4) + 1j * g_.normal(size=4)
+            v_ = v_ / np.linalg.norm(v_)
+            params.append({"vec_re": [float(x) for x in v_.real], "vec_im": [float(x) for x in v_.imag]})
         else:
             v = draw_param(rng, k)
             if small and k in ("r", "d"):
@@ -170,9 +191,18 @@ def rand_circuit(rng, table, max_used=4, max_cmds=8, dagger_prob=0.25, cover=Tru
 # building and running
 
 def _param(p):
+    if isinstance(p, dict) and "vec_re" in p:
+        return np.array(p["vec_re"]) + 1j * np.array(p["vec_im"])
     if isinstance(p, dict):
         return mat_from_json(p)
     return p
+
+
+def _pkey(p):
+    """hashable, rounding-stable key of a parameter"""
+    if isinstance(p, dict):
+        return json.dumps({k: np.round(np.array(v, dtype=float), 9).tolist() for k, v in p.items()}, sort_keys=True)
+    return round(float(p), 12)
 
 
 def make_op(name, params, dagger=False):
@@ -328,12 +358,12 @@ def state_dist(a, b):
     return float(max(np.max(np.abs(a[0] - b[0])), np.max(np.abs(a[1] - b[1]))))
 
 
-def compile_prog(prog, compiler):
+def compile_prog(prog, compiler, **opts):
     """-> ("ok", compiled) | ("circuit-error", msg) | ("crash", ExceptionTypeName, msg)"""
     try:
         with warnings.catch_warnings():
             warnings.simplefilter("ignore")
-            c = prog.compile(compiler=compiler)
+            c = prog.compile(compiler=compiler, **opts)
         return ("ok", c)
     except CircuitError as e:
         return ("circuit-error", str(e))
@@ -345,6 +375,7 @@ def compile_prog(prog, compiler):
 # The check
 # =======================================================================================
 import hashlib  # noqa: E402
+import os  # noqa: E402
 import json  # noqa: E402
 import random as _random  # noqa: E402
 import traceback  # noqa: E402
@@ -379,6 +410,8 @@ def spec_of_circuit(circuit):
         for v in par_evaluate(c.op.p):
             if isinstance(v, np.ndarray) and v.ndim == 2:
                 ps.append(mat_to_json(v))
+            elif isinstance(v, np.ndarray) and v.ndim == 1:
+                ps.append({"vec_re": [float(x) for x in v.real], "vec_im": [float(x) for x in v.imag]})
             else:
                 ps.append(float(v))
         out.append([name, ps, ms, bool(getattr(c.op, "dagger", False))])
@@ -560,7 +593,7 @@ def judge(compiler, spec, dec, out_spec):
 def run_compiler_case(compiler, spec):
     """-> dict(kind=..., ...) describing what the implementation did."""
     prog = build_program(spec)
-    r = compile_prog(prog, compiler)
+    r = compile_prog(prog, compiler, **spec.get("opts", {}))
     if r[0] == "circuit-error":
         return {"kind": "circuit-error"}
     if r[0] == "crash":
@@ -689,7 +722,7 @@ def correspondence(ctx):
     for kind, compiler, table in (("gu", "gaussian_unitary", {**GU_PRIMS, **GU_DECOMP}), ("pa", "passive", PASSIVE_PRIMS)):
         specs, cases, impls = [], [], []
         for i in range(n_cases):
-            spec = rand_circuit(rng, table, max_used=4, max_cmds=8, dagger_prob=0.3 if i % 3 == 0 else 0.0)
+            spec = rand_circuit(rng, table, max_used=10 if i % 12 == 5 else 4, max_cmds=8, dagger_prob=0.3 if i % 3 == 0 else 0.0)
             prog = build_program(spec)
             comp = compiler_db[compiler]()
             try:
@@ -754,14 +787,22 @@ def correspondence(ctx):
 # ---------------------------------------------------------------------------------------
 # gaussian_merge: stand-ins, structure, Fock confirmation
 
-def standin_channel(name, params, dag):
-    """A fixed generic Gaussian unitary standing in for a non-Gaussian gate (same key -> same unitary)."""
-    k = NONGAUSS[name][0]
-    h = int(hashlib.sha1(repr((name, [round(float(x), 12) for x in params], bool(dag))).encode()).hexdigest()[:8], 16)
+def standin_channel(name, params, dag, k=None):
+    """A fixed generic Gaussian map standing in for an operation gaussian_merge must leave in place (same key ->
+    same map): a generic Gaussian unitary for Kgate/Vgate/CKgate, a generic noisy non-invertible Gaussian channel for
+    a measurement, a generic reset channel (X = 0) for the Ket preparation."""
+    k = k or NONGAUSS_ALL[name][0]
+    h = int(hashlib.sha1(repr((name, [_pkey(x) for x in params], bool(dag), k)).encode()).hexdigest()[:8], 16)
     r = _random.Random(h)
     sq = [math.exp(-0.3 - 0.1 * i) for i in range(k)] + [math.exp(0.3 + 0.1 * i) for i in range(k)]
     S = symp_of_unitary(rand_unitary(r, k, "haar")) @ np.diag(sq) @ symp_of_unitary(rand_unitary(r, k, "haar"))
     d = np.array([r.uniform(-1, 1) for _ in range(2 * k)])
+    if name in OPAQUE:
+        B = np.array([[r.uniform(-1, 1) for _ in range(2 * k)] for _ in range(2 * k)])
+        Y = 0.3 * B @ B.T + 0.2 * np.eye(2 * k)
+        if name == "Ket":
+            return np.zeros((2 * k, 2 * k)), Y, d
+        return S @ np.diag([r.uniform(0.3, 0.8) for _ in range(2 * k)]), Y, d
     return S, np.zeros((2 * k, 2 * k)), d
 
 
@@ -771,10 +812,10 @@ def hybrid_channel(cmds, modes, nongauss="standin"):
     pos = {m: i for i, m in enumerate(modes)}
     X, Y, d = np.eye(2 * n), np.zeros((2 * n, 2 * n)), np.zeros(2 * n)
     for name, params, ms, dag in cmds:
-        if name in NONGAUSS:
+        if name in NONGAUSS_ALL:
             if nongauss == "identity":
                 continue
-            Xo, Yo, do = standin_channel(name, params, dag)
+            Xo, Yo, do = standin_channel(name, params, dag, len(ms))
         else:
             Xo, Yo, do = op_channel(name, params, dag)
         sl = [pos[m] for m in ms]
@@ -784,12 +825,12 @@ def hybrid_channel(cmds, modes, nongauss="standin"):
 
 
 def wire_projection(cmds, w):
-    return [(c[0], tuple(round(float(x), 12) for x in c[1]), tuple(c[2]), bool(c[3])) for c in cmds if c[0] in NONGAUSS and w in c[2]]
+    return [(c[0], tuple(_pkey(x) for x in c[1]), tuple(c[2]), bool(c[3])) for c in cmds if c[0] in NONGAUSS_ALL and w in c[2]]
 
 
 def merge_family(spec):
     used = used_modes_of(spec["cmds"])
-    ng = sum(1 for c in spec["cmds"] if c[0] in NONGAUSS)
+    ng = sum(1 for c in spec["cmds"] if c[0] in NONGAUSS_ALL)
     if ng == 0:
         return "gaussian-only"
     if len(used) == 1:
@@ -797,14 +838,15 @@ def merge_family(spec):
     # a displacement-free Gaussian part followed only by non-Gaussian gates: none of the recorded surgery
     # defects (edge lost when the block has displacement gates; later Gaussian gates hoisted over a barrier;
     # dependency-violating merge order behind a barrier) can occur here, so this family must stay clean
-    flags = [c[0] in NONGAUSS for c in spec["cmds"]]
+    flags = [c[0] in NONGAUSS_ALL for c in spec["cmds"]]
     first_ng = flags.index(True)
     if all(flags[first_ng:]) and not any(c[0] in ("Dgate", "Xgate", "Zgate") for c in spec["cmds"]):
         return "block-then-nongaussian"
     return "hybrid-multimode"
 
 
-def rand_hybrid(rng, family=None):
+def rand_hybrid(rng, family=None, opaque=False):
+    NG = NONGAUSS_ALL if opaque else NONGAUSS
     family = family or rng.choice(["1mode", "gaussian-only", "hybrid-multimode", "hybrid-multimode", "block-then-nongaussian"])
     gauss = {**GU_PRIMS, **GU_DECOMP}
     if family == "block-then-nongaussian":
@@ -819,7 +861,7 @@ def rand_hybrid(rng, family=None):
         nodisp = {k_: v for k_, v in gauss.items() if k_ not in ("Dgate", "Xgate", "Zgate")}
         dp = 0.2 if rng.random() < 0.25 else 0.0
         cmds = [rand_cmd(rng, used, nodisp, dagger_prob=dp, max_mat=2) for _ in range(rng.randint(1, 6))]
-        cmds += [rand_cmd(rng, used, NONGAUSS, dagger_prob=dp) for _ in range(rng.randint(1, 3))]
+        cmds += [rand_cmd(rng, used, NG, dagger_prob=dp, max_mat=2) for _ in range(rng.randint(1, 3))]
         return {"N": N, "cmds": cmds}
     if family == "1mode":
         N, used = rng.choice([(1, [0]), (3, [2]), (10, [9])])
@@ -831,16 +873,15 @@ def rand_hybrid(rng, family=None):
         if len(used) < 2:
             used = used + [max(used) + 1]
             N = max(N, max(used) + 1)
-    table = dict(gauss) if family == "gaussian-only" else {**gauss, **NONGAUSS, **{k + "": v for k, v in NONGAUSS.items()}}
     n = rng.randint(1, 9)
     cmds = []
     dp = 0.25 if rng.random() < 0.25 else 0.0
     for _ in range(n):
         if family != "gaussian-only" and rng.random() < 0.3:
-            cmds.append(rand_cmd(rng, used, NONGAUSS, dagger_prob=dp))
+            cmds.append(rand_cmd(rng, used, NG, dagger_prob=dp, max_mat=2))
         else:
             cmds.append(rand_cmd(rng, used, gauss, dagger_prob=dp, max_mat=2))
-    if family != "gaussian-only" and not any(c[0] in NONGAUSS for c in cmds):
+    if family != "gaussian-only" and not any(c[0] in NONGAUSS_ALL for c in cmds):
         cmds.insert(rng.randrange(len(cmds) + 1), rand_cmd(rng, used, {"Kgate": NONGAUSS["Kgate"], "Vgate": NONGAUSS["Vgate"]}, dagger_prob=0.0))
     return {"N": N, "cmds": cmds}
 
@@ -876,7 +917,7 @@ def rand_gaussian_sub(rng, modes, style=None):
         return [rand_cmd(rng, [m], {"Rgate": GU_PRIMS["Rgate"], "Sgate": GU_PRIMS["Sgate"], "Pgate": GU_DECOMP["Pgate"],
                                     "Fouriergate": GU_DECOMP["Fouriergate"]}, 0.2) for m in modes for _ in range(rng.randint(0, 2))] or \
                [["Rgate", [0.7], [modes[0]], False]]
-    table = {k_: v for k_, v in {**GU_PRIMS, **GU_DECOMP}.items() if k_ not in ("Dgate", "Xgate", "Zgate")}
+    table = {k_: v for k_, v in {**GU_PRIMS, **GU_DECOMP}.items() if k_ not in ("Dgate", "Xgate", "Zgate", "GraphEmbed")}
     return [rand_cmd(rng, modes, table, 0.2, max_mat=min(3, k)) for _ in range(rng.randint(1, 4))]
 
 
@@ -911,7 +952,7 @@ def conj_block(rng, used, style=None, ndisp=None, subset=None):
     return blk
 
 
-def rand_conj_circuit(rng, placement=None, n=None, contiguous=None):
+def rand_conj_circuit(rng, placement=None, n=None, contiguous=None, opaque=False):
     """Circuits built around identity-symplectic blocks with displacement, alone or next to non-Gaussian gates."""
     n = n or rng.randint(1, 5)
     if contiguous if contiguous is not None else rng.random() < 0.7:
@@ -920,7 +961,7 @@ def rand_conj_circuit(rng, placement=None, n=None, contiguous=None):
         used = sorted(rng.sample(range(0, 20), n))
         N = max(used) + 1 + rng.choice([0, 2])
     placement = placement or rng.choice(["alone", "alone", "pre", "post", "between", "two-blocks"])
-    ng = lambda: [rand_cmd(rng, used, NONGAUSS, dagger_prob=0.1) for _ in range(rng.randint(1, 2))]
+    ng = lambda: [rand_cmd(rng, used, NONGAUSS_ALL if opaque else NONGAUSS, dagger_prob=0.1, max_mat=2) for _ in range(rng.randint(1, 2))]
     cmds = conj_block(rng, used)
     if placement == "pre":
         cmds = ng() + cmds
@@ -960,10 +1001,10 @@ class CompileTimeout(Exception):
     pass
 
 
-MERGE_TIME_LIMIT = 20  # seconds for one gaussian_merge compile of a <= 15-command circuit (normally milliseconds)
+MERGE_TIME_LIMIT = 6  # seconds (2 after the first compile that did not return) for one gaussian_merge compile of a <= 15-command circuit (normally milliseconds)
 
 
-def compile_merge_observed(prog):
+def compile_merge_observed(prog, **opts):
     """prog.compile(compiler='gaussian_merge') under a time limit, recording what the inner
     GaussianUnitary.compile calls returned (to tell WHICH list was empty when an IndexError comes out)."""
     import signal
@@ -985,7 +1026,7 @@ def compile_merge_observed(prog):
     try:
         with warnings.catch_warnings():
             warnings.simplefilter("ignore")
-            return prog.compile(compiler="gaussian_merge"), inner
+            return prog.compile(compiler="gaussian_merge", **opts), inner
     except Exception as e:
         e._inner = inner
         raise
@@ -1002,11 +1043,13 @@ def check_merge_case(ctx, spec, report=True):
     data = {"check": "merge", "spec": spec}
     sig, text, out = None, "", None
     try:
-        compiled, _inner = compile_merge_observed(prog)
+        compiled, _inner = compile_merge_observed(prog, **spec.get("opts", {}))
     except CompileTimeout:
+        global MERGE_TIME_LIMIT
         compiled = None
         sig = "gaussian_merge:hang"
         text = "gaussian_merge did not return within %d s (the merge loop does not terminate)" % MERGE_TIME_LIMIT
+        MERGE_TIME_LIMIT = 2
     except CircuitError:
         if all(accepted("gaussian_merge", c[0]) for c in spec["cmds"]):
             sig, text = "gaussian_merge:rejects-accepted-circuit", "CircuitError on a circuit of accepted operations"
@@ -1069,7 +1112,8 @@ def check_merge_case(ctx, spec, report=True):
             small = shrink(spec, same, max_steps=80)
             ndec = len(compiler_db["gaussian_merge"]().decompose(build_program(small).circuit))
             if ndec <= 3:
-                sig += ":direct-dependency"
+                # ... except through a Ket preparation, which the surgery does not count as a barrier at all
+                sig += ":direct-dependency-via-Ket" if any(c[0] == "Ket" for c in small["cmds"]) else ":direct-dependency"
                 text += " (minimal circuit has only %d primitive commands)" % ndec
     if sig and report:
         ctx.counterexample(sig, text, data)
@@ -1079,7 +1123,7 @@ def check_merge_case(ctx, spec, report=True):
 def scale_small(spec, f=0.15):
     out = []
     for n, ps, ms, d in spec["cmds"]:
-        kinds = (GU_PRIMS.get(n) or GU_DECOMP.get(n) or NONGAUSS.get(n) or (None, []))[1]
+        kinds = (GU_PRIMS.get(n) or GU_DECOMP.get(n) or NONGAUSS_ALL.get(n) or (None, []))[1]
         q = [(round(p * f, 6) if (k in ("r", "d") and not isinstance(p, dict)) else p) for p, k in zip(ps, kinds)] if kinds else ps
         out.append([n, q, ms, d])
     return {"N": spec["N"], "cmds": out}
@@ -1090,7 +1134,7 @@ def fock_differs(spec, cutoff=9):
     True / False / None (not comparable: too big, compile fails, matrix ops)."""
     s = scale_small(spec)
     used = used_modes_of(s["cmds"])
-    if len(used) > 3 or any(isinstance(p, dict) for c in s["cmds"] for p in c[1]):
+    if len(used) > 3 or any(isinstance(p, dict) for c in s["cmds"] for p in c[1]) or any(c[0] in OPAQUE for c in s["cmds"]):
         return None
     if max(used) > 3:
         return None  # index-value dependent behaviour cannot be reproduced on a small Fock register
@@ -1101,9 +1145,7 @@ def fock_differs(spec, cutoff=9):
     s = {"N": nm, "cmds": s["cmds"]}
     prog = build_program(s)
     try:
-        with warnings.catch_warnings():
-            warnings.simplefilter("ignore")
-            comp = prog.compile(compiler="gaussian_merge")
+        comp, _ = compile_merge_observed(prog)
         pre = [(ops.Dgate(0.2, 0.3 * (i + 1)), [i]) for i in range(len(used))]
         kets = []
         for circ in (prog.circuit, comp.circuit):
@@ -1119,20 +1161,24 @@ def fock_differs(spec, cutoff=9):
         return None
 
 
-def shrink(spec, pred, max_steps=60):
+def shrink(spec, pred, max_steps=60, budget_s=15.0):
+    import time as _time
     cmds = list(spec["cmds"])
     steps = 0
     changed = True
-    while changed and steps < max_steps:
+    t_end = _time.time() + budget_s
+    while changed and steps < max_steps and _time.time() < t_end:
         changed = False
         for i in range(len(cmds)):
             c2 = cmds[:i] + cmds[i + 1:]
             steps += 1
-            if c2 and pred({"N": spec["N"], "cmds": c2}):
+            if _time.time() > t_end:
+                break
+            if c2 and pred(dict(spec, cmds=c2)):
                 cmds = c2
                 changed = True
                 break
-    return {"N": spec["N"], "cmds": cmds}
+    return dict(spec, cmds=cmds)
 
 
 # ---------------------------------------------------------------------------------------
@@ -1147,6 +1193,55 @@ class _Quiet:
 # minimal inputs of the defects repaired by the fix commits bc7648a (sorted mode order) and f18521d (dagger
 # honoured); evaluated first on every run -- if one of them fails again it is reported as a VIOLATION
 REGRESSION = [{'check': 'pure', 'compiler': 'gaussian_unitary', 'spec': {'N': 17, 'cmds': [['CXgate', [0.034], [16, 5], False]]}}, {'check': 'pure', 'compiler': 'gaussian_unitary', 'spec': {'N': 5, 'cmds': [['Xgate', [-0.46], [0], True]]}}, {'check': 'pure', 'compiler': 'passive', 'spec': {'N': 9, 'cmds': [['sMZgate', [-0.088, 2.5], [3, 8], False]]}}, {'check': 'pure', 'compiler': 'passive', 'spec': {'N': 2, 'cmds': [['Rgate', [-2.122], [1], True]]}}, {'check': 'merge', 'spec': {'N': 21, 'cmds': [['CXgate', [-0.697], [17, 2], False]]}}, {'check': 'merge', 'spec': {'N': 4, 'cmds': [['Pgate', [0.64], [3], True]]}}, {'check': 'merge', 'spec': {'N': 20, 'cmds': [['CXgate', [0.482], [5, 16], True]]}}]
+
+
+# ---------------------------------------------------------------------------------------
+# golden pass-set: a fixed stream of hybrid circuits with the outcome each had on the tree the findings were
+# recorded on.  gaussian_merge has recorded defect CLASSES in the hybrid multi-mode family; an input that used to be
+# compiled correctly and now fails is a different defect even if its class name is a recorded one.
+GOLDEN_FILE = os.path.join(coq.VERIF, "corpus", "C11-merge-golden.json")
+GOLDEN_N = 1200
+
+
+def golden_specs(n):
+    rng = _random.Random(777001)
+    out = []
+    for i in range(n):
+        opq = i % 3 == 1
+        sp = rand_conj_circuit(rng, opaque=opq) if i % 4 == 3 else rand_hybrid(rng, "hybrid-multimode", opaque=opq)
+        if i % 9 == 4:
+            sp["opts"] = {"optimize": True}
+        out.append(sp)
+    return out
+
+
+def write_golden():
+    """(re)record the outcomes; run by hand on the unchanged tree: python -c 'from props import c11; c11.write_golden()'"""
+    exp = [check_merge_case(_Quiet(), sp, report=False)[0] for sp in golden_specs(GOLDEN_N)]
+    json.dump({"property": "C11", "kind": "golden-outcomes", "data": {"check": "golden", "generator_seed": 777001, "expected": exp}},
+              open(GOLDEN_FILE, "w"), indent=0)
+    return exp
+
+
+def golden_sweep(ctx):
+    try:
+        exp = json.load(open(GOLDEN_FILE))["data"]["expected"]
+    except Exception as e:
+        ctx.obligation("golden-pass-set:present", False, repr(e))
+        return
+    n = ctx.budget(400, GOLDEN_N)
+    bad = 0
+    for i, sp in enumerate(golden_specs(n)):
+        sig, text, _ = check_merge_case(_Quiet(), sp, report=False)
+        ctx.case({"golden": i, "outcome": sig or "ok"}, nontrivial=True, bucket="golden-%s" % ("ok" if sig is None else "known-class"))
+        if sig is not None and exp[i] is None:
+            bad += 1
+            if bad <= 5:
+                small = shrink(sp, lambda s2: check_merge_case(_Quiet(), s2, report=False)[0] == sig, budget_s=8.0)
+                ctx.counterexample(sig + ":on-previously-correct-input",
+                                   "an input of the fixed stream that gaussian_merge compiled correctly when the findings were recorded now fails: " + text,
+                                   {"check": "merge", "spec": small, "golden_index": i})
+    ctx.obligation("golden-pass-set:present", True)
 
 
 def replay_corpus(ctx):
@@ -1164,6 +1259,8 @@ def replay_corpus(ctx):
             d = json.load(open(path))["data"]
         except Exception as e:
             ctx.obligation("corpus:" + os.path.basename(path), False, repr(e))
+            continue
+        if d.get("check") == "golden":
             continue
         if d.get("check") == "pure":
             res = check_pure(ctx, d["compiler"], d["spec"], "corpus")
@@ -1191,8 +1288,10 @@ def search(ctx):
                 cands = {k: v for k, v in bad.items() if v[0] <= len(used)}
                 spec["cmds"].insert(rng.randrange(len(spec["cmds"]) + 1), rand_cmd(rng, used, cands, 0.0))
             else:
-                spec = rand_circuit(rng, table, max_used=rng.choice([2, 3, 4, 5]), max_cmds=rng.choice([3, 6, 10]),
+                spec = rand_circuit(rng, table, max_used=rng.choice([2, 3, 4, 5, 5, 9, 12]), max_cmds=rng.choice([3, 6, 10, 16]),
                                     dagger_prob=0.0 if mode < 5 else 0.3)
+                if mode in (3, 8):
+                    spec["opts"] = {"optimize": True}  # the other documented entry: decompose, optimise, then compile
             before = len(ctx.issues)
             res = check_pure(ctx, compiler, spec, "search")
             ctx.case({"compiler": compiler, "spec": spec, "outcome": res["kind"], "judge": res.get("judge")},
@@ -1215,11 +1314,9 @@ def search(ctx):
                     small = shrink(spec, pred)
                     iss.data = {"check": "pure", "compiler": compiler, "spec": small}
         # state-level cross-check on the backend when the compiled program is runnable
-        n_state = ctx.budget(25, 200)
+        n_state = ctx.budget(40, 250)
         for _ in range(n_state):
-            spec = rand_circuit(rng, table, max_used=3, max_cmds=6, dagger_prob=0.0)
-            if is_nontrivial_pure(spec):
-                continue
+            spec = rand_circuit(rng, table, max_used=rng.choice([2, 3, 4]), max_cmds=6, dagger_prob=0.2)
             res = run_compiler_case(compiler, spec)
             if res["kind"] != "ok":
                 continue
@@ -1242,8 +1339,17 @@ def search(ctx):
     # deterministic sweep of identity-symplectic blocks with displacement (same circuits on every run), then random
     # hybrids; every third random case is built around G ; displacements ; G^-1 blocks
     todo = [("sweep", sp) for sp in conj_sweep()]
-    todo += [("random", rand_conj_circuit(rng) if i % 3 == 2 else rand_hybrid(rng)) for i in range(n_merge)]
+    for i in range(n_merge):
+        opq = i % 4 == 1
+        sp = rand_conj_circuit(rng, opaque=opq) if i % 3 == 2 else rand_hybrid(rng, opaque=opq)
+        if i % 7 == 3:
+            sp["opts"] = {"optimize": True}
+        todo.append(("random", sp))
+    hangs = 0
     for origin, spec in todo:
+        if hangs >= 3:
+            ctx.notes.append("gaussian_merge search stopped early after 3 compiles that did not terminate")
+            break
         before = len(ctx.issues)
         sig, text, out = check_merge_case(ctx, spec)
         if out is not None:
@@ -1253,6 +1359,9 @@ def search(ctx):
         conj = any(c[0] in ("Dgate", "Xgate", "Zgate") for c in spec["cmds"]) and any(c[3] or isinstance(c[1][0] if c[1] else 0, dict) for c in spec["cmds"])
         ctx.case({"compiler": "gaussian_merge", "spec": spec, "outcome": sig or "ok"}, nontrivial=fam in ("hybrid-multimode", "block-then-nongaussian") or conj,
                  bucket="merge-%s-%s-%s" % (origin, fam, (sig or "ok").replace("gaussian_merge:", "")))
+        if sig == "gaussian_merge:hang":
+            hangs += 1
+            found[sig] = True
         if sig and sig not in found:
             found[sig] = True
             small = shrink(spec, lambda s2, sig=sig: check_merge_case(_Quiet(), s2, report=False)[0] == sig)
@@ -1262,6 +1371,7 @@ def search(ctx):
                 fd = fock_differs(small)
                 ctx.notes.append("gaussian_merge %s: Fock-backend confirmation on the shrunk case: %s" % (sig, fd))
     run_validator(ctx, vcases)
+    golden_sweep(ctx)
     ctx.obligation("reference-deterministic", not TRANSIENT, "mismatches that vanished on recomputation: %r" % TRANSIENT[:3])
 
 
@@ -1270,8 +1380,8 @@ def run_validator(ctx, vcases):
     def enc(cmds, ids):
         items = []
         for n, ps, ms, dg in cmds:
-            if n in NONGAUSS:
-                k = ids.setdefault((n, tuple(round(float(x), 12) for x in ps), bool(dg)), len(ids) + 1)
+            if n in NONGAUSS_ALL:
+                k = ids.setdefault((n, tuple(_pkey(x) for x in ps), bool(dg)), len(ids) + 1)
             else:
                 k = 0
             items.append("mkH %d %s" % (k, coq.coq_list(ms, str)))
@@ -1335,6 +1445,9 @@ def replay(ctx, data):
             fd = fock_differs(d["spec"])
             print("Fock backend (scaled-down parameters) source vs compiled differ:", fd)
         return bool(sig)
+    if chk == "golden":
+        print("golden outcome list, not a single input; run ./check C11 quick")
+        return False
     if chk == "helpers":
         print("row-helper correspondence: re-run ./check C11 quick")
         return True
